@@ -24,7 +24,19 @@ package zlint
 //@ spec certFlag(z *ResultSet, L []*lint.CertificateLint, k int, s lint.LintStatus) bool =
 //@      exists(j, 0, k, z.Results[L[j].Name].Status == s)
 
-//@ func (*ResultSet).executeCertificate [C01 C10]
+// <kind>Ran(z, L, o, cfgs, k): for each of the first k lints of L, the stored result carries the status
+// and details of executing that very lint on o under the configuration handed to its execution
+//@ spec certRan(z *ResultSet, L []*lint.CertificateLint, o *x509.Certificate, cfgs [0]lint.Configuration, k int) bool =
+//@      forall(j, 0, k, z.Results[L[j].Name].Status == lint.certVerdictS(L[j], o, cfgs[j+1]) &&
+//@                      z.Results[L[j].Name].Details == lint.certVerdictD(L[j], o, cfgs[j+1]))
+//@ spec crlRan(z *ResultSet, L []*lint.RevocationListLint, o *x509.RevocationList, cfgs [0]lint.Configuration, k int) bool =
+//@      forall(j, 0, k, z.Results[L[j].Name].Status == lint.crlVerdictS(L[j], o, cfgs[j+1]) &&
+//@                      z.Results[L[j].Name].Details == lint.crlVerdictD(L[j], o, cfgs[j+1]))
+//@ spec ocspRan(z *ResultSet, L []*lint.OcspResponseLint, o *ocsp.Response, cfgs [0]lint.Configuration, k int) bool =
+//@      forall(j, 0, k, z.Results[L[j].Name].Status == lint.ocspVerdictS(L[j], o, cfgs[j+1]) &&
+//@                      z.Results[L[j].Name].Details == lint.ocspVerdictD(L[j], o, cfgs[j+1]))
+
+//@ func (*ResultSet).executeCertificate [C01 C07 C10]
 //@   requires z != nil && o != nil && registry != nil
 //@   requires !z.NoticesPresent && !z.WarningsPresent && !z.ErrorsPresent && !z.FatalsPresent
 //@   nopanic
@@ -35,11 +47,13 @@ package zlint
 //@   loop 1 invariant z.WarningsPresent == certFlag(z, g.retLints, k, lint.Warn)
 //@   loop 1 invariant z.ErrorsPresent   == certFlag(z, g.retLints, k, lint.Error)
 //@   loop 1 invariant z.FatalsPresent   == certFlag(z, g.retLints, k, lint.Fatal)
+//@   loop 1 invariant [C07] g.nRun == k && certRan(z, g.retLints, o, g.bseqRun, k)
 //@   ensures g.nLints == 1 && certDone(z, g.retLints, len(g.retLints))
 //@   ensures z.NoticesPresent  == certFlag(z, g.retLints, len(g.retLints), lint.Notice)
 //@   ensures z.WarningsPresent == certFlag(z, g.retLints, len(g.retLints), lint.Warn)
 //@   ensures z.ErrorsPresent   == certFlag(z, g.retLints, len(g.retLints), lint.Error)
 //@   ensures z.FatalsPresent   == certFlag(z, g.retLints, len(g.retLints), lint.Fatal)
+//@   ensures [C07] g.nRun == len(g.retLints) && certRan(z, g.retLints, o, g.bseqRun, len(g.retLints))
 
 // same for crl: the list of lints the registry handed out (ghost: return value of
 // the traced Lints() call); R(j): the result stored for the j-th lint.
@@ -51,7 +65,7 @@ package zlint
 //@ spec crlFlag(z *ResultSet, L []*lint.RevocationListLint, k int, s lint.LintStatus) bool =
 //@      exists(j, 0, k, z.Results[L[j].Name].Status == s)
 
-//@ func (*ResultSet).executeRevocationList [C01 C10]
+//@ func (*ResultSet).executeRevocationList [C01 C07 C10]
 //@   requires z != nil && o != nil && registry != nil
 //@   requires !z.NoticesPresent && !z.WarningsPresent && !z.ErrorsPresent && !z.FatalsPresent
 //@   maypanic
@@ -62,11 +76,13 @@ package zlint
 //@   loop 1 invariant z.WarningsPresent == crlFlag(z, g.retCrlLints, k, lint.Warn)
 //@   loop 1 invariant z.ErrorsPresent   == crlFlag(z, g.retCrlLints, k, lint.Error)
 //@   loop 1 invariant z.FatalsPresent   == crlFlag(z, g.retCrlLints, k, lint.Fatal)
+//@   loop 1 invariant [C07] g.nCrlRun == k && crlRan(z, g.retCrlLints, o, g.bseqCrlRun, k)
 //@   ensures g.nCrlLints == 1 && crlDone(z, g.retCrlLints, len(g.retCrlLints))
 //@   ensures z.NoticesPresent  == crlFlag(z, g.retCrlLints, len(g.retCrlLints), lint.Notice)
 //@   ensures z.WarningsPresent == crlFlag(z, g.retCrlLints, len(g.retCrlLints), lint.Warn)
 //@   ensures z.ErrorsPresent   == crlFlag(z, g.retCrlLints, len(g.retCrlLints), lint.Error)
 //@   ensures z.FatalsPresent   == crlFlag(z, g.retCrlLints, len(g.retCrlLints), lint.Fatal)
+//@   ensures [C07] g.nCrlRun == len(g.retCrlLints) && crlRan(z, g.retCrlLints, o, g.bseqCrlRun, len(g.retCrlLints))
 
 // same for ocsp: the list of lints the registry handed out (ghost: return value of
 // the traced Lints() call); R(j): the result stored for the j-th lint.
@@ -78,7 +94,7 @@ package zlint
 //@ spec ocspFlag(z *ResultSet, L []*lint.OcspResponseLint, k int, s lint.LintStatus) bool =
 //@      exists(j, 0, k, z.Results[L[j].Name].Status == s)
 
-//@ func (*ResultSet).executeOcspResponse [C01 C10]
+//@ func (*ResultSet).executeOcspResponse [C01 C07 C10]
 //@   requires z != nil && o != nil && registry != nil
 //@   requires !z.NoticesPresent && !z.WarningsPresent && !z.ErrorsPresent && !z.FatalsPresent
 //@   maypanic
@@ -89,11 +105,13 @@ package zlint
 //@   loop 1 invariant z.WarningsPresent == ocspFlag(z, g.retOcspLints, k, lint.Warn)
 //@   loop 1 invariant z.ErrorsPresent   == ocspFlag(z, g.retOcspLints, k, lint.Error)
 //@   loop 1 invariant z.FatalsPresent   == ocspFlag(z, g.retOcspLints, k, lint.Fatal)
+//@   loop 1 invariant [C07] g.nOcspRun == k && ocspRan(z, g.retOcspLints, o, g.bseqOcspRun, k)
 //@   ensures g.nOcspLints == 1 && ocspDone(z, g.retOcspLints, len(g.retOcspLints))
 //@   ensures z.NoticesPresent  == ocspFlag(z, g.retOcspLints, len(g.retOcspLints), lint.Notice)
 //@   ensures z.WarningsPresent == ocspFlag(z, g.retOcspLints, len(g.retOcspLints), lint.Warn)
 //@   ensures z.ErrorsPresent   == ocspFlag(z, g.retOcspLints, len(g.retOcspLints), lint.Error)
 //@   ensures z.FatalsPresent   == ocspFlag(z, g.retOcspLints, len(g.retOcspLints), lint.Fatal)
+//@   ensures [C07] g.nOcspRun == len(g.retOcspLints) && ocspRan(z, g.retOcspLints, o, g.bseqOcspRun, len(g.retOcspLints))
 
 // ---------------------------------------------------------------------------
 // the public entry points (C01): complete, well-formed result set
@@ -149,3 +167,53 @@ package zlint
 //@   maypanic
 //@   assigns \fresh
 //@   ensures (o == nil) == (result == nil)
+
+// ---------------------------------------------------------------------------
+// C07: a lint's verdict does not depend on which other lints run. The lemma is stated over the
+// proved postconditions of Filter (subRegistry: same lint objects, same configuration), of the
+// result-set builders (<kind>Done: one result per lint name; <kind>Ran: each result is the verdict of
+// executing that lint on the object under the configuration handed over) and of the registry
+// (wfRegistry: the by-name table and the list agree), plus the fact that both runs hand every lint
+// the registry's configuration (cz / cf: proved contract of (*registryImpl).GetConfiguration; no
+// lint run assigns the registry, write frame of C05/C10).
+//@ lemma filter_independence_cert(r *lint.registryImpl, F *lint.registryImpl, z *ResultSet, zf *ResultSet, o *x509.Certificate, cz [0]lint.Configuration, cf [0]lint.Configuration) [C07]:
+//@      implies(lint.wfRegistry(r) && lint.wfRegistry(F) && lint.subRegistry(F, r) &&
+//@              certDone(z, r.certificateLints.lints, len(r.certificateLints.lints)) &&
+//@              certDone(zf, F.certificateLints.lints, len(F.certificateLints.lints)) &&
+//@              certRan(z, r.certificateLints.lints, o, cz, len(r.certificateLints.lints)) &&
+//@              certRan(zf, F.certificateLints.lints, o, cf, len(F.certificateLints.lints)) &&
+//@              forall(j, 0, len(r.certificateLints.lints), cz[j+1] == r.configuration) &&
+//@              forall(j, 0, len(F.certificateLints.lints), cf[j+1] == F.configuration),
+//@          all(n, string, implies(indom(zf.Results, n), indom(F.certificateLints.lintsByName, n) && indom(z.Results, n) &&
+//@                                 zf.Results[n].Status == z.Results[n].Status && zf.Results[n].Details == z.Results[n].Details)) &&
+//@          all(n, string, implies(indom(F.certificateLints.lintsByName, n), indom(zf.Results, n))) &&
+//@          forall(s, 4, 8, implies(certFlag(zf, F.certificateLints.lints, len(F.certificateLints.lints), lint.LintStatus(s)),
+//@                                  certFlag(z, r.certificateLints.lints, len(r.certificateLints.lints), lint.LintStatus(s)))))
+
+//@ lemma filter_independence_crl(r *lint.registryImpl, F *lint.registryImpl, z *ResultSet, zf *ResultSet, o *x509.RevocationList, cz [0]lint.Configuration, cf [0]lint.Configuration) [C07]:
+//@      implies(lint.wfRegistry(r) && lint.wfRegistry(F) && lint.subRegistry(F, r) &&
+//@              crlDone(z, r.revocationListLints.lints, len(r.revocationListLints.lints)) &&
+//@              crlDone(zf, F.revocationListLints.lints, len(F.revocationListLints.lints)) &&
+//@              crlRan(z, r.revocationListLints.lints, o, cz, len(r.revocationListLints.lints)) &&
+//@              crlRan(zf, F.revocationListLints.lints, o, cf, len(F.revocationListLints.lints)) &&
+//@              forall(j, 0, len(r.revocationListLints.lints), cz[j+1] == r.configuration) &&
+//@              forall(j, 0, len(F.revocationListLints.lints), cf[j+1] == F.configuration),
+//@          all(n, string, implies(indom(zf.Results, n), indom(F.revocationListLints.lintsByName, n) && indom(z.Results, n) &&
+//@                                 zf.Results[n].Status == z.Results[n].Status && zf.Results[n].Details == z.Results[n].Details)) &&
+//@          all(n, string, implies(indom(F.revocationListLints.lintsByName, n), indom(zf.Results, n))) &&
+//@          forall(s, 4, 8, implies(crlFlag(zf, F.revocationListLints.lints, len(F.revocationListLints.lints), lint.LintStatus(s)),
+//@                                  crlFlag(z, r.revocationListLints.lints, len(r.revocationListLints.lints), lint.LintStatus(s)))))
+
+//@ lemma filter_independence_ocsp(r *lint.registryImpl, F *lint.registryImpl, z *ResultSet, zf *ResultSet, o *ocsp.Response, cz [0]lint.Configuration, cf [0]lint.Configuration) [C07]:
+//@      implies(lint.wfRegistry(r) && lint.wfRegistry(F) && lint.subRegistry(F, r) &&
+//@              ocspDone(z, r.ocspResponseLints.lints, len(r.ocspResponseLints.lints)) &&
+//@              ocspDone(zf, F.ocspResponseLints.lints, len(F.ocspResponseLints.lints)) &&
+//@              ocspRan(z, r.ocspResponseLints.lints, o, cz, len(r.ocspResponseLints.lints)) &&
+//@              ocspRan(zf, F.ocspResponseLints.lints, o, cf, len(F.ocspResponseLints.lints)) &&
+//@              forall(j, 0, len(r.ocspResponseLints.lints), cz[j+1] == r.configuration) &&
+//@              forall(j, 0, len(F.ocspResponseLints.lints), cf[j+1] == F.configuration),
+//@          all(n, string, implies(indom(zf.Results, n), indom(F.ocspResponseLints.lintsByName, n) && indom(z.Results, n) &&
+//@                                 zf.Results[n].Status == z.Results[n].Status && zf.Results[n].Details == z.Results[n].Details)) &&
+//@          all(n, string, implies(indom(F.ocspResponseLints.lintsByName, n), indom(zf.Results, n))) &&
+//@          forall(s, 4, 8, implies(ocspFlag(zf, F.ocspResponseLints.lints, len(F.ocspResponseLints.lints), lint.LintStatus(s)),
+//@                                  ocspFlag(z, r.ocspResponseLints.lints, len(r.ocspResponseLints.lints), lint.LintStatus(s)))))
